@@ -107,7 +107,7 @@ theorem accInv_fold_ok {c : Ctx} {mt : SelTree → SelTree → Except Panic SelT
         intro q q' hq hq' h1 h2 h3
         obtain ⟨_, hk1, hin1⟩ := hall q hq
         obtain ⟨_, hk2, hin2⟩ := hall q' hq'
-        obtain ⟨_, hnm, hsm⟩ := hcoh.1 q.1.1 q'.1.1 (pu_sb1.2 hin1) (pu_sb1.2 hin2) (by rw [hk1, hk2])
+        obtain ⟨_, hnm, hsm⟩ := cohAt_full hcoh q.1.1 q'.1.1 (pu_sb1.2 hin1) (pu_sb1.2 hin2) (by rw [hk1, hk2])
         rcases h1 with h1 | h1
         · rw [hnm, h2] at h1; cases h1
         · rw [h1, h3] at hsm; cases hsm
@@ -146,7 +146,7 @@ theorem accInv_fold_ok {c : Ctx} {mt : SelTree → SelTree → Except Panic SelT
             have := hok.2; simp only [hs, Bool.false_eq_true, ↓reduceIte, hf] at this; exact this
           obtain ⟨_, _, fd', s, hfd', hsub', hrel'⟩ := fieldOf_object hfo'
           obtain ⟨_, hqk, hqin⟩ := hall q (mono q hq)
-          have hsame := (hcoh.1 q.1.1 p.1.1 (pu_sb1.2 hqin) (pu_sb1.2 hin) (by rw [hqk, hkey])).2.1
+          have hsame := (cohAt_full hcoh q.1.1 p.1.1 (pu_sb1.2 hqin) (pu_sb1.2 hin) (by rw [hqk, hkey])).2.1
           rw [← hsame, hfdq] at hfd'; cases hfd'
           have hQ : ∀ s', SUnion (subsOf ps) (Sb1 s) s' → ∃ q' ∈ ps ++ p :: rest, q'.1.1.sub = some s' := by
             rintro s' (⟨q', hq', _, h6⟩ | h6)
